@@ -352,6 +352,7 @@ func (c *Ctx) resetCase() {
 	c.decodeCache = map[string]decodeRes{}
 	c.pendingObs = nil
 	c.forks = nil
+	c.liftGuard = nil
 }
 
 func runEntry(prog *ssa.Program, cfg *Config, e EntryCfg, tier string, funcByName map[string]*ssa.Function, workers int, solverKind string, timeoutS int, verbose bool, smtlog string) *EntryResult {
